@@ -174,6 +174,12 @@ AbsAddRule(A, ram2, def, anchor, writeInTrie, order) ==   \* ram2: RAM with the 
   ELSE LET A1 == [Named(A, {anchor}) EXCEPT !.flags = @ \cup {anchor}] IN
        AbsPages(A1, ram2, def, [j \in 1..Len(order) |-> [l |-> order[j], cr |-> FALSE]])
 
+RECURSIVE AbsInstallRules(_, _, _, _, _)
+AbsInstallRules(A, rm, d, rules, i) ==     \* constructor / clear: rules installed on an empty index
+  IF i > Len(rules) THEN A
+  ELSE LET rm2 == RamSet(rm, rules[i].anchor, rules[i].rule) IN
+       AbsInstallRules(AbsAddRule(A, rm2, d, rules[i].anchor, TRUE, <<>>).A, rm2, d, rules, i + 1)
+
 AbsRemoveRule(A, ram, anchor) ==
   IF anchor \notin DOMAIN ram THEN NoReport(A, "KeyError")
   ELSE IF anchor \notin A.known THEN NoReport(A, "TraphException")
